@@ -740,6 +740,7 @@ theorem orderClause_fail {st : Stmt} {kw : List (Str × Arg)} {e : Fail} (h : or
       | int i => simp at h; exact ⟨h.symm, _, rfl, by simp, by simp⟩
       | text s => simp at h
       | blob b => simp at h; exact ⟨h.symm, _, rfl, by simp, by simp⟩
+      | obj k b => simp at h; exact ⟨h.symm, _, rfl, by simp, by simp⟩
     | list vs => simp at h; exact ⟨h.symm, _, rfl, by simp, by simp⟩
     | set vs => simp at h; exact ⟨h.symm, _, rfl, by simp, by simp⟩
 
